@@ -41,6 +41,23 @@ def run_property(pid: str, tier: str, replay: str | None = None) -> int:
                 return 1
             return 0
         if tier == "thorough" and not os.environ.get("VERIF_NO_ADVISORY"):
+            # cross-check the engine's call resolution against mypy's inference (mypy ships in the repository's own environment)
+            import pathlib
+            import subprocess
+            import tempfile
+            tool = pathlib.Path(__file__).resolve().parent.parent / "tools" / "mypy_xcheck.py"
+            with tempfile.TemporaryDirectory(prefix="xcheck_") as td:
+                outp = os.path.join(td, "x.json")
+                px = subprocess.run([sys.executable, str(tool), "--json", outp], capture_output=True, text=True, timeout=600)
+                line = next((l for l in px.stdout.splitlines() if l.startswith("XCHECK")), "XCHECK not run")
+                print(line)
+                if os.path.exists(outp):
+                    run.extra["type_resolution_crosscheck"] = json.load(open(outp))
+                else:
+                    run.extra["type_resolution_crosscheck"] = {"error": (px.stdout + px.stderr)[-300:]}
+                for l in px.stdout.splitlines():
+                    if l.strip().startswith("DISAGREE"):
+                        print(f"XCHECK-WARNING property={pid} {l.strip()}")
             # validate the checker itself on scratch variants of the current tree (advisory, never changes the verdict)
             from . import selftest
             adv = selftest.advisory(pid)
